@@ -4,5 +4,6 @@ pub mod driver;
 pub mod engine;
 pub mod explore;
 pub mod guest;
+pub mod hexec;
 pub mod host;
 pub mod scen;
